@@ -58,6 +58,15 @@ class Prop(PoolProp):
     def cfg_from_json(self, d):
         return FCfg(**d)
 
+    def cover_cfgs(self, tier):
+        # every reachable transition of the model: two workers, one and two calls, fewer items than workers, exact consumption,
+        # mul_p_map (more stop orders than workers started... never: cap = cpu count)
+        cfgs = [FCfg(2, False, [(2, 1)]), FCfg(2, False, [(1, 1), (4, 2)]), FCfg(2, False, [(2, 1), (1, 1)], exact=True),
+                FCfg(2, True, [(3, 1)]), FCfg(3, False, [(3, 1)], none_inputs=True)]
+        if tier == "thorough":
+            cfgs += [FCfg(3, False, [(4, 1), (0, 1), (2, 2)]), FCfg(3, True, [(4, 1), (1, 1)]), FCfg(4, False, [(5, 1)], exact=True)]
+        return cfgs
+
     def corpus(self):
         return [(FCfg(3, False, [(2, 1), (0, 1), (7, 3)]), ("prio", 1, True), chooser_prio_workers(random.Random(1), True),
                  "fewer items than workers, an empty call, caller last"),
